@@ -272,6 +272,16 @@ def systematic_sources(basic):
             else:
                 extra = ("Rule", "PA", yx, "only", "-", a[0], "20", "2:00", "0", "S")          # after the regular Oct Sun>=1
             src([("PA", pa + [extra])], [(hm(off + 7), "-", "LMT", "1980"), (hm(off), "PA", "A%sT")], "%s/extra-rule-same-month-%d" % (h, yx))
+        # (E) a rule in January / December (DST that ends in January) next to an era change at the start of a year: the
+        # transition that starts the era and the rule share (year, month)
+        for rm, rd in (("Jan", "Sun>=15"), ("Jan", "1"), ("Dec", "Sun>=25")):
+            pe = [("Rule", "PE", 1990, "max", "-", "Nov", "Sun>=1", "2:00", "1:00", "D"), ("Rule", "PE", 1990, "max", "-", rm, rd, "3:00", "0", "S")]
+            for form in (["2005"] if basic else ["2005", "2005 Jan 10", "2005 Dec 20"]):
+                for prev in ("-", "PA"):
+                    for step in (0, 60):
+                        first = (hm(off + step), "-", "FIX", form) if prev == "-" else (hm(off + step), "PA", "A%sT", form)
+                        src([("PA", pa), ("PE", pe)], [(hm(off + 7), "-", "LMT", "1980"), first, (hm(off), "PE", "E%sT")],
+                            "%s/jan-rule-%s-%s/%s/%s/%+d" % (h, rm, rd, form, prev, step))
         # (D) UNTIL given as a weekday expression, including ones that resolve into the neighbouring month
         if not basic:
             for form in ("2009 Sep Sun>=28 2:00", "2009 Oct Sat<=2 2:00", "2009 Mar lastSun 1:00u", "2009 Jun Sun>=8 0:00", "2009 Nov Sun>=29 3:00s",
